@@ -105,11 +105,31 @@ def run_pack(prop, cases, grounds=(), bounded=(), *, tier="quick", seed=0, assum
     _TIER = tier
     jobs = jobs or int(os.environ.get("VERIF_JOBS", "16"))
     outs = [None] * len(_CASES)
+    budget_exceeded = False
     if _CASES:
         ctx = mp.get_context("fork")
+        # wall budget: on a changed tree some queries can become hard (every one of them runs into its time limit);
+        # the check then reports what it has, the unfinished cases as undecided, instead of running for hours
+        budget = float(os.environ.get("VERIF_MAX_WALL", "1500" if tier == "quick" else "10800"))
         with ctx.Pool(min(jobs, max(1, len(_CASES)))) as pool:
-            for i, out in pool.imap_unordered(_run_index, range(len(_CASES)), chunksize=1):
+            it = pool.imap_unordered(_run_index, range(len(_CASES)), chunksize=1)
+            done = 0
+            while done < len(_CASES):
+                left = budget - (time.time() - t_start)
+                try:
+                    i, out = it.next(timeout=max(1.0, left))
+                except mp.TimeoutError:
+                    pool.terminate()
+                    break
+                except StopIteration:
+                    break
                 outs[i] = out
+                done += 1
+        budget_exceeded = any(o is None for o in outs)
+        for i, o in enumerate(outs):
+            if o is None:
+                c = _CASES[i]
+                outs[i] = {"unit": c.unit, "case": c.case, "error": "out-of-subset", "detail": f"not finished within the wall budget of {int(budget)} s (undecided)", "results": [], "paths": 0}
 
     engine_errors = []
     out_of_subset = []
@@ -351,6 +371,9 @@ def run_pack(prop, cases, grounds=(), bounded=(), *, tier="quick", seed=0, assum
             print(f"  bounded stand-in {name} failed: {str(f)[:300]}")
             print(f"VIOLATION property={prop} replay={path}")
         return 1
+    if budget_exceeded:
+        print(f"UNDECIDED property={prop}: the wall budget was exceeded before every case had finished")
+        return 2
     if engine_errors or vacuous or missing:
         return 3
     if unknown or out_of_subset:
